@@ -117,7 +117,14 @@ class Gen:
         self.ffts = []
 
     def const(self):
-        return ['c', self.rng.choice(CONSTS)]
+        v = self.rng.choice(CONSTS)
+        r = self.rng.random()
+        # the same number as a Python int (0, 1, -1, 2, ...) or as -0.0: the shortcuts compare with ==
+        if '/' not in v and r < 0.4:
+            return ['c', v, 'i']
+        if v == '0' and r < 0.55:
+            return ['c', v, 'z']
+        return ['c', v]
 
     def sigs(self, rates=None):
         out = []
